@@ -2,4 +2,4 @@
    replaying FollowSubscribe / FollowUnsubscribe mutate the `updates` map they share with
    the root). Not part of the check; `oracle c08legacy` documents that the legacy model
    reproduces the pre-repair behaviour (design-notes/C08.md). *)
-let run_case = Eng_c08.run_with true
+let run_case = Eng_c08.run_with true true
